@@ -336,6 +336,56 @@ theorem applyPolicy_shape (p : Params α) (hours : Hours α) (h1 : PHours α) (e
       cases hd : hours.dhuhr <;> simp [Hours.toPH, hd] at hh1 <;> subst hh1 <;> simp [flagOf, PH.ext]
     · simp only [Except.ok.injEq] at hh1; subst hh1; left; exact SameOthers.rfl' _
 
+/-- one-sided forms of `applyPolicy_shape`: the substitute latitude only has to have the twilight
+    whose flag the interval pass is about to read -/
+theorem applyPolicy_shape_fajr (p : Params α) (hours : Hours α) (h1 : PHours α) (env : Env α)
+    (hh1 : applyPolicy p hours.toPH env = .ok h1)
+    (hNLf : ∀ l, p.policy = .NearestLatitudeAllPrayersAlways l → (env.nearLatHours l).fajr.isSome = true) :
+    SameOthers h1 hours.toPH ∨ flagOf h1.fajr = true := by
+  by_cases hA : p.policy.isNearLatAll = false
+  · have := applyPolicy_shape p hours h1 env hh1
+      (fun l hl => by simp [Policy.isNearLatAll, hl] at hA) (fun l hl => by simp [Policy.isNearLatAll, hl] at hA)
+    rcases this with h | ⟨h, _⟩
+    · exact Or.inl h
+    · exact Or.inr h
+  · obtain ⟨l, hpol⟩ : ∃ l, p.policy = .NearestLatitudeAllPrayersAlways l := by
+      cases hp : p.policy <;> simp [Policy.isNearLatAll, hp] at hA
+      exact ⟨_, rfl⟩
+    obtain ⟨x, hx⟩ := Option.isSome_iff_exists.mp (hNLf l hpol)
+    unfold applyPolicy at hh1
+    simp only [hpol, Gen.dispatch] at hh1
+    split at hh1
+    · right
+      unfold adjNearLat at hh1
+      simp only [hpol, Policy.isNearLatFIInvalid, Policy.isNearLatAll, hx] at hh1
+      cases hi : (env.nearLatHours l).isha <;> cases hd : hours.dhuhr <;>
+        simp [Hours.toPH, hd, hi] at hh1 <;> subst hh1 <;> simp [flagOf, PH.ext]
+    · simp only [Except.ok.injEq] at hh1; subst hh1; left; exact SameOthers.rfl' _
+
+theorem applyPolicy_shape_isha (p : Params α) (hours : Hours α) (h1 : PHours α) (env : Env α)
+    (hh1 : applyPolicy p hours.toPH env = .ok h1)
+    (hNLi : ∀ l, p.policy = .NearestLatitudeAllPrayersAlways l → (env.nearLatHours l).isha.isSome = true) :
+    SameOthers h1 hours.toPH ∨ flagOf h1.isha = true := by
+  by_cases hA : p.policy.isNearLatAll = false
+  · have := applyPolicy_shape p hours h1 env hh1
+      (fun l hl => by simp [Policy.isNearLatAll, hl] at hA) (fun l hl => by simp [Policy.isNearLatAll, hl] at hA)
+    rcases this with h | ⟨_, h⟩
+    · exact Or.inl h
+    · exact Or.inr h
+  · obtain ⟨l, hpol⟩ : ∃ l, p.policy = .NearestLatitudeAllPrayersAlways l := by
+      cases hp : p.policy <;> simp [Policy.isNearLatAll, hp] at hA
+      exact ⟨_, rfl⟩
+    obtain ⟨y, hy⟩ := Option.isSome_iff_exists.mp (hNLi l hpol)
+    unfold applyPolicy at hh1
+    simp only [hpol, Gen.dispatch] at hh1
+    split at hh1
+    · right
+      unfold adjNearLat at hh1
+      simp only [hpol, Policy.isNearLatFIInvalid, Policy.isNearLatAll, hy] at hh1
+      cases hf : (env.nearLatHours l).fajr <;> cases hd : hours.dhuhr <;>
+        simp [Hours.toPH, hd, hf] at hh1 <;> subst hh1 <;> simp [flagOf, PH.ext]
+    · simp only [Except.ok.injEq] at hh1; subst hh1; left; exact SameOthers.rfl' _
+
 end IPT.ExtLatLemmas
 
 namespace IPT.ExtLatLemmas
